@@ -16,7 +16,11 @@ DANGEROUS = [("verif_sink", "hit"), ("verif_pkg.sub", "thing"), ("verif_pkg", "s
              ("ctypes", "CDLL"), ("xml.dom.minidom", "parseString"), ("not_a_real_module", "f"), ("wsgiref.simple_server", "make_server"),
              ("verif_pkg.sub.deeper", "x"), ("marshal", "loads"), ("importlib", "import_module"), ("builtins", "__import__"),
              ("verif_sink", "lazy.attr"), ("os", "path.join"), ("concurrent.futures", "ThreadPoolExecutor.submit"),
-             ("collections", "OrderedDict.fromkeys")]
+             ("collections", "OrderedDict.fromkeys"),
+             # sub-modules of installed third-party packages the ML features know about (not in the static allow-list, and
+             # the package is not imported by an analysis process): importing the package is observable
+             ("torch.nn.parameter", "Parameter"), ("torch.jit", "ScriptModule"), ("numpy.random", "RandomState"),
+             ("numpy.lib.npyio", "load")]
 ASSUME = ["effects are observed through CPython audit events (import, exec, open, os.system/exec*/spawn/fork, subprocess.Popen, socket.*, "
           "ctypes.*, pickle.find_class, marshal.loads), a recording meta-path finder, a logging sink module, sys.modules and "
           "scratch-directory deltas; reading an attribute of an already imported real module without calling it is invisible",
